@@ -370,6 +370,8 @@ func (fr *frame) applyContract(fc *FuncContract, key string, callee *ssa.Functio
 		if fc.ModAll {
 			mods = append(mods, ModStar)
 		}
+	} else if fc.Pure {
+		// declared pure: no effect on modelled state (part of the purity assumption)
 	} else if callee != nil {
 		mods = s.P.ModsOf(callee)
 	} else {
